@@ -92,13 +92,17 @@ impl Prop for C04 {
                     let run = run_scripted(Box::new(server), || one::query_vars(&addr, None));
                     o.failure = expect_equal("C04", "gamespy::one::query_vars", &run, &st.expected_vars(), &[]);
                     if sample && o.failure.is_none() {
-                        crate::realnet::fidelity("C04 gs1 vars", gamedig::verif_hook::Proto::Udp, make, &run, 1000, |a, t| one::query_vars(&a, t), &FIDELITY);
+                        if let Some(real) = crate::realnet::fidelity("C04 gs1 vars", gamedig::verif_hook::Proto::Udp, make, &run, 1000, |a, t| one::query_vars(&a, t), &FIDELITY) {
+                            o.fail(format!("C04|real sockets|C04 gs1 vars|differs from the scripted transport|{real}"), serde_json::json!({"over_real_loopback_sockets": real, "scripted_transport": "Ok (equal to the reference value)"}));
+                        }
                     }
                 } else {
                     let run = run_scripted(Box::new(server), || one::query(&addr, None));
                     o.failure = expect_equal("C04", "gamespy::one::query", &run, &st.expected(), &["unused_entries"]);
                     if sample && o.failure.is_none() {
-                        crate::realnet::fidelity("C04 gs1", gamedig::verif_hook::Proto::Udp, make, &run, 1000, |a, t| one::query(&a, t), &FIDELITY);
+                        if let Some(real) = crate::realnet::fidelity("C04 gs1", gamedig::verif_hook::Proto::Udp, make, &run, 1000, |a, t| one::query(&a, t), &FIDELITY) {
+                            o.fail(format!("C04|real sockets|C04 gs1|differs from the scripted transport|{real}"), serde_json::json!({"over_real_loopback_sockets": real, "scripted_transport": "Ok (equal to the reference value)"}));
+                        }
                     }
                 }
             }
@@ -118,7 +122,9 @@ impl Prop for C04 {
                 let run = run_scripted(Box::new(server), || two::query(&addr, None));
                 o.failure = expect_equal("C04", "gamespy::two::query", &run, &st.expected(), &["unused_entries"]);
                 if sample && o.failure.is_none() {
-                    crate::realnet::fidelity("C04 gs2", gamedig::verif_hook::Proto::Udp, make, &run, 1000, |a, t| two::query(&a, t), &FIDELITY);
+                    if let Some(real) = crate::realnet::fidelity("C04 gs2", gamedig::verif_hook::Proto::Udp, make, &run, 1000, |a, t| two::query(&a, t), &FIDELITY) {
+                        o.fail(format!("C04|real sockets|C04 gs2|differs from the scripted transport|{real}"), serde_json::json!({"over_real_loopback_sockets": real, "scripted_transport": "Ok (equal to the reference value)"}));
+                    }
                 }
             }
             Case::Three { st, vars_only } => {
@@ -136,13 +142,17 @@ impl Prop for C04 {
                     let run = run_scripted(Box::new(server), || three::query_vars(&addr, None));
                     o.failure = expect_equal("C04", "gamespy::three::query_vars", &run, &st.expected_vars(), &[]);
                     if sample && o.failure.is_none() {
-                        crate::realnet::fidelity("C04 gs3 vars", gamedig::verif_hook::Proto::Udp, make, &run, 1000, |a, t| three::query_vars(&a, t), &FIDELITY);
+                        if let Some(real) = crate::realnet::fidelity("C04 gs3 vars", gamedig::verif_hook::Proto::Udp, make, &run, 1000, |a, t| three::query_vars(&a, t), &FIDELITY) {
+                            o.fail(format!("C04|real sockets|C04 gs3 vars|differs from the scripted transport|{real}"), serde_json::json!({"over_real_loopback_sockets": real, "scripted_transport": "Ok (equal to the reference value)"}));
+                        }
                     }
                 } else {
                     let run = run_scripted(Box::new(server), || three::query(&addr, None));
                     o.failure = expect_equal("C04", "gamespy::three::query", &run, &st.expected(), &["unused_entries"]);
                     if sample && o.failure.is_none() {
-                        crate::realnet::fidelity("C04 gs3", gamedig::verif_hook::Proto::Udp, make, &run, 1000, |a, t| three::query(&a, t), &FIDELITY);
+                        if let Some(real) = crate::realnet::fidelity("C04 gs3", gamedig::verif_hook::Proto::Udp, make, &run, 1000, |a, t| three::query(&a, t), &FIDELITY) {
+                            o.fail(format!("C04|real sockets|C04 gs3|differs from the scripted transport|{real}"), serde_json::json!({"over_real_loopback_sockets": real, "scripted_transport": "Ok (equal to the reference value)"}));
+                        }
                     }
                 }
             }
